@@ -276,7 +276,7 @@ ROUND6 = {
            "Manifest.next_segment_id only grows.",
     "C12": "R12.9 (= C13 R13.6) compaction unlists by membership in what it folded. R12.10 (= C13 R13.1) the per-key fold overwrites only behind "
            "`absent` or `incoming stamp > stored stamp`. R12.11 every store to Manifest.next_segment_id is an increment of the old counter or the guarded raise.",
-    "C13": "R13.14 (= C06 R06.10) deltas carry the full value. R13.15 (= C12 R12.3) a manifest save reports success only after its own put and rename succeeded.",
+    "C13": "R13.16 (= C12 R12.11) the segment id counter only grows. R13.14 (= C06 R06.10) deltas carry the full value. R13.15 (= C12 R12.3) a manifest save reports success only after its own put and rename succeeded.",
     "C14": "R14.13 the checkpoint decoders return the deserialised state untouched. R14.14 the segment reader and its iterator decode the record block "
            "as read/decompressed (no truncate/resize by an unchecksummed size). R14.15 no hand-written serde impl besides SDS.",
     "C15": "R15.13 an Incomplete answer is decided by a missing terminator or an exact position. R15.14 the terminator scans resume at candidate+1. "
